@@ -15,10 +15,10 @@ func GenCfg(t *rapid.T, kind string) Cfg {
 		c.Cmp = []string{dom.Nat, dom.Rev}[rapid.IntRange(0, 1).Draw(t, "cmp")]
 	}
 	if kind == "circularbuffer" {
-		c.Cap = []int{1, 2, 3, 4, 7}[rapid.IntRange(0, 4).Draw(t, "cap")]
+		c.Cap = []int{1, 2, 3, 4, 7, 8, 16, 33}[rapid.IntRange(0, 7).Draw(t, "cap")]
 	}
 	if kind == "btree" {
-		c.Order = []int{3, 4, 5, 8}[rapid.IntRange(0, 3).Draw(t, "order")]
+		c.Order = []int{3, 4, 5, 8, 9, 16}[rapid.IntRange(0, 5).Draw(t, "order")]
 	}
 	return c
 }
@@ -61,12 +61,15 @@ func GenRot(t *rapid.T, methods []string) int {
 func GenStep(t *rapid.T, methods []string, rot int) Step {
 	x := rapid.IntRange(0, 1<<20).Draw(t, "method")
 	s := Step{M: methods[(x*7919+rot)%len(methods)]}
-	s.R = rapid.SliceOfN(rapid.IntRange(0, 1<<16), 1, 8).Draw(t, "raw")
+	s.R = rapid.SliceOfN(rapid.IntRange(0, 1<<22), 1, 8).Draw(t, "raw")
 	switch s.M {
 	case "FromJSON", "UnmarshalJSON":
 		s.B = GenBytes(t)
 	case "Iterator", "IteratorAt":
 		n := rapid.IntRange(0, 12).Draw(t, "nit")
+		if rapid.IntRange(0, 9).Draw(t, "long-walk") == 0 {
+			n = rapid.IntRange(12, 70).Draw(t, "nit-long")
+		}
 		for j := 0; j < n; j++ {
 			y := rapid.IntRange(0, 1<<12).Draw(t, "itcall")
 			s.It = append(s.It, iterCalls[(y*31+j*7)%len(iterCalls)])
